@@ -12,7 +12,8 @@ deserialization machine spec/Deserr.tla:
      charged to the property under check are violations.
 """
 import json, os, random, subprocess, sys, time
-import vlib, helpers, coregen
+import vlib, helpers, coregen, randdefs
+import gen_catalogue
 from vlib import log
 
 CORE_PROPS = ["C01", "C02", "C03", "C04", "C06", "C07", "C08", "C09", "C10", "C11", "C12", "C14", "C15"]
@@ -65,7 +66,7 @@ def adversarial_inputs(ents, rng):
         for v in extremes:
             out.append({"ty": eid, "val": v, "src": "ov", "grp": "start", "perm": False, "auto": auto, "perms": []})
         # duplicate keys / repeated tag through the second value source
-        if ty[0] == "ref":
+        if ty[0] == "ref" and any(x["name"] == ty[1] for x in coregen.C.DEFS):
             d = [x for x in coregen.C.DEFS if x["name"] == ty[1]][0]
             fields = d["fields"] if d["kind"] == "struct" else next((v["fields"] for v in d["variants"] if v["fields"]), None)
             if fields:
@@ -88,12 +89,12 @@ def adversarial_inputs(ents, rng):
     return out
 
 
-def systematic_inputs(ents, rng, auto, nperms):
+def systematic_inputs(ents, rng, auto, nperms, extra_defs=()):
     """deterministic coverage of key / tag spellings and of map-key faults: every derived root type with every field (variant)
     written in each plausible spelling (identifier, camelCase, lowercase, rename, upper case), each field deleted or nulled once,
     and for map targets with fallible keys every combination of good / bad key and good / bad value in every order"""
     out = []
-    pg = coregen.PayloadGen(rng)
+    pg = coregen.PayloadGen(rng, extra_defs)
     forms = [lambda f: coregen.G.unraw(f["ident"]), lambda f: coregen.camel(coregen.G.unraw(f["ident"])), lambda f: coregen.G.unraw(f["ident"]).lower(),
              lambda f: f["rename"] if f["rename"] is not None else coregen.G.unraw(f["ident"]), lambda f: coregen.G.unraw(f["ident"]).upper()]
 
@@ -146,10 +147,10 @@ def systematic_inputs(ents, rng, auto, nperms):
     return out
 
 
-def gen_inputs(pid, tier, seed):
+def gen_inputs(pid, tier, seed, extra_defs=(), extra_entries=()):
     rng = random.Random(seed * 7919 + sum(ord(c) for c in pid))
-    ents, table = coregen.entries()
-    pg = coregen.PayloadGen(rng)
+    ents, table = coregen.entries(extra_defs, extra_entries)
+    pg = coregen.PayloadGen(rng, extra_defs)
     prof = profile(pid)
     n = prof["n"][tier]
     recs = []
@@ -165,7 +166,7 @@ def gen_inputs(pid, tier, seed):
             recs.append({"ty": eid, "val": val, "src": "json" if (i % 2 == 0 or prof.get("json_only")) else "ov", "grp": "start", "perm": False,
                          "auto": prof["auto"], "perms": perms})
     recs += systematic_inputs(ents, rng, dict(prof["auto"], all_upto=min(prof["auto"]["all_upto"], 3), random=min(prof["auto"]["random"], 1)),
-                              1 if prof["perms"] else 0)
+                              1 if prof["perms"] else 0, extra_defs)
     if pid == "C15":
         recs += collide_inputs(ents, rng)
     if pid == "C12":
@@ -251,7 +252,7 @@ def locate_runs(lines, viol_items):
     return out
 
 
-def validate(pid, trace_path, nshards, timeout=3000):
+def validate(pid, trace_path, nshards, timeout=3000, env_extra=None):
     with open(trace_path) as f:
         lines = [ln.rstrip("\n") for ln in f if ln.strip()]
     shards = vlib.shard_lines(lines, nshards)
@@ -261,7 +262,7 @@ def validate(pid, trace_path, nshards, timeout=3000):
         with open(sp, "w") as f:
             f.write("\n".join(sh) + "\n")
         meta.append((sp, sh))
-        jobs.append((vlib.validate_trace, ("Trace_core", "Trace_core.cfg", sp, "%s-core-%s-%d" % (pid, os.path.basename(trace_path), k), timeout, None, "3g")))
+        jobs.append((vlib.validate_trace, ("Trace_core", "Trace_core.cfg", sp, "%s-core-%s-%d" % (pid, os.path.basename(trace_path), k), timeout, env_extra, "3g")))
     outs = vlib.parallel(jobs, min(len(jobs), max(1, vlib.NCPU // 2)))
     tot = {"lines": 0, "runs": 0, "reports": 0, "breaks": 0, "compared": 0, "perms": 0, "msgs": 0, "calls": 0, "states": 0,
            "vcount": {}, "checked": {}}
@@ -288,9 +289,17 @@ def run(pid, tier, prop=None):
     t0 = time.time()
     vlib.ensure_dirs()
     subprocess.check_call([sys.executable, os.path.join(vlib.VERIF, "tools", "gen_catalogue.py")], stdout=subprocess.DEVNULL)
-    binary = vlib.build_harness()
+    extra_defs, extra_entries, cat_env, build_env = (), (), {}, None
+    if tier == "thorough":
+        # programs: seeded random derive inputs extend the catalogue for this run (recompiled against the working tree)
+        extra_defs, extra_entries = randdefs.random_defs(vlib.seed(), 40)
+        ext = os.path.join(vlib.WORK, "ext")
+        rs, cj = os.path.join(ext, "gen_cat_%d.rs" % vlib.seed()), os.path.join(ext, "catalogue_%d.json" % vlib.seed())
+        gen_catalogue.generate(extra_defs, extra_entries, write=True, out_rs=rs, out_json=cj)
+        cat_env, build_env = {"CATALOGUE": cj}, {"DH_GEN_CAT": rs}
+    binary = vlib.build_harness(env_extra=build_env)
     tdir = os.path.join(vlib.WORK, "traces")
-    recs, ents = gen_inputs(pid, tier, vlib.seed())
+    recs, ents = gen_inputs(pid, tier, vlib.seed(), extra_defs, extra_entries)
     inp = os.path.join(tdir, "%s-in.ndjson" % pid)
     write_ndjson(inp, recs)
     t1 = os.path.join(tdir, "%s-core.ndjson" % pid)
@@ -305,7 +314,7 @@ def run(pid, tier, prop=None):
     violations = []
     replay_recs = []
     for cfg, workers in (("MC_core_free.cfg", 8), ("MC_core_canon.cfg", 4)):
-        r = vlib.run_tlc("MC_core", cfg, "%s-%s" % (pid, cfg[:-4]), workers=workers, env_extra={"MCIN": mcin},
+        r = vlib.run_tlc("MC_core", cfg, "%s-%s" % (pid, cfg[:-4]), workers=workers, env_extra=dict(cat_env, MCIN=mcin),
                          timeout=1500 if tier == "quick" else 6000, xmx="8g")
         if not r.ok:
             log(r.error_text)
@@ -340,7 +349,7 @@ def run(pid, tier, prop=None):
     samples = []
     nontrivial = set()
     for tp in traces:
-        tot, bad = validate(pid, tp, 8 if tier == "quick" else 14)
+        tot, bad = validate(pid, tp, 8 if tier == "quick" else 14, env_extra=cat_env)
         log("[trace] %s: %d lines, %d runs, vcount=%s" % (os.path.basename(tp), tot["lines"], tot["runs"], {k: v for k, v in tot["vcount"].items() if v}))
         if tot_all is None:
             tot_all = tot
@@ -386,7 +395,8 @@ def run(pid, tier, prop=None):
         "samples": samples,
         "evaluations": tot_all["runs"],
         "distinct_nontrivial": len(nontrivial),
-        "rule": "one run = one call of deserr::deserialize on a catalogue entry (71 entries: every std impl, nested containers, derived structs / enums "
+        "catalogue_entries": len(ents), "random_derive_inputs": len(extra_defs),
+        "rule": "one run = one call of deserr::deserialize on a catalogue entry (87 hand-written entries, thorough: + 40 seeded random derive inputs and their wrappers: every std impl, nested containers, derived structs / enums "
                 "with rename / rename_all / default / skip / deny_unknown_fields / tags) with a seeded type-directed payload (valid and with faults at random "
                 "positions), through serde_json or the order-preserving second value source, under the keep-going script, every C^k B^w script, all scripts "
                 "when there are few decisions, random scripts, JsonError / QueryParamError, and permuted object members; plus every canonical behaviour TLC "
